@@ -237,14 +237,19 @@ def load_jugfile(path, store):
     return tasks, space
 
 
-def index_tasks(tasks):
-    """hash -> model task index (creation order, duplicates share the index of their first occurrence)"""
+def index_tasks(tasks, fixed=None):
+    """hash -> model task index (creation order, duplicates share the index of their first occurrence). With `fixed` (the index of an earlier
+    analysis of the same jugfile) that numbering is kept: a jugfile that goes on filling a container after handing it to a task creates the
+    dependent before its dependencies, and the model numbers tasks in an order in which they can run."""
     index, order = {}, []
     for t in tasks:
         h = t.hash()
         if h not in index:
             index[h] = len(order)
             order.append(t)
+    if fixed is not None and set(fixed) == set(index):
+        order = sorted(order, key=lambda t: fixed[t.hash()])
+        index = {t.hash(): i for i, t in enumerate(order)}
     return index, order
 
 
@@ -270,19 +275,38 @@ def analyse(path, make_store):
     store = make_store()
     tr = LoadTracer(store)
     tasks, space = load_jugfile(path, tr)
-    index, order = index_tasks(tasks)
-    info = []
+    index0, order0 = index_tasks(tasks)
     for t in tasks:
         t.store = tr
-    for i, t in enumerate(order):
-        for u in tasks:
-            u.unload()
-        del tr.loads[:]
+    # run every task once, in creation order; a task whose arguments cannot be resolved yet (its jugfile filled a container with tasks after
+    # handing it over, so the dependent was created first) is tried again after the others: the model numbers tasks in completion order
+    done, pending, raw = [], list(order0), {}
+    while pending:
+        later, last_exc = [], None
+        for t in pending:
+            for u in tasks:
+                u.unload()
+            del tr.loads[:]
+            can_run = t.can_run()
+            try:
+                t.run()
+            except (AssertionError, KeyError, IOError, ValueError) as e:
+                last_exc = e
+                later.append(t)
+                continue
+            raw[id(t)] = (lib.canon(t.value()), list(tr.loads), can_run)
+            done.append(t)
+        if len(later) == len(pending):
+            raise last_exc
+        pending = later
+    order = done
+    index = {t.hash(): i for i, t in enumerate(order)}
+    info = []
+    for t in order:
+        val, loads, can_run = raw[id(t)]
         reported = sorted({index[d.hash()] for d in t.dependencies()})
-        can_run = t.can_run()
-        t.run()
-        reads = sorted({index[h] for h in tr.loads if h in index})
-        info.append({'name': t.name, 'value': lib.canon(t.value()), 'reads': reads, 'reported': reported, 'can_run': can_run})
+        reads = sorted({index[h] for h in loads if h in index})
+        info.append({'name': t.name, 'value': val, 'reads': reads, 'reported': reported, 'can_run': can_run})
     for u in tasks:
         u.unload()
     top = {}
